@@ -198,8 +198,8 @@ func (w *world) runBatch(r *vh.RNG, first, n int) {
 	fail := func(sig string, t *tcase, extra map[string]any) {
 		d := map[string]any{"world": w.label, "case": t.Idx, "family": t.Family, "features": t.Feats, "depth": t.Depth, "note": t.Note,
 			"predicate_reasons": t.V.Reasons, "eth_shaped": t.V.EthShaped, "tx_hex": fmt.Sprintf("%x", t.Tx),
-			"codes": map[string]int64{"simulate": t.Code[mSim], "check": t.Code[mCheck], "recheck": t.Code[mRecheck], "deliver": t.Code[mDeliver]},
-			"logs": map[string]string{"simulate": t.Log[mSim], "check": t.Log[mCheck], "recheck": t.Log[mRecheck], "deliver": t.Log[mDeliver]},
+			"codes":  map[string]int64{"simulate": t.Code[mSim], "check": t.Code[mCheck], "recheck": t.Code[mRecheck], "deliver": t.Code[mDeliver]},
+			"logs":   map[string]string{"simulate": t.Log[mSim], "check": t.Log[mCheck], "recheck": t.Log[mRecheck], "deliver": t.Log[mDeliver]},
 			"height": c.Height}
 		for k, v := range extra {
 			d[k] = v
